@@ -3,7 +3,8 @@
     The pairing scores [sc i j] (score of A[i] against B[j]) and the gap penalty [gap] are DATA: the
     theorems hold for every score function and every gap penalty (of any sign). *)
 From Coq Require Import ZArith QArith List Bool.
-From OBI.C08 Require Import Model Proofs VoteModel VoteProofs.
+From OBI.C08.Gen Require Import Tables.
+From OBI.C08 Require Import Model Proofs VoteModel VoteProofs VoteCount FastProofs ScoreModel ScoreProofs AsmProofs ReassemblyProofs.
 Import ListNotations.
 Open Scope Z_scope.
 
@@ -76,17 +77,139 @@ Example C08_consensus_nonvacuous :   (* acg/[30,10,40] vs cgt/[20,20,20], path [
   consensus [97; 99; 103] [30; 10; 40] [99; 103; 116] [20; 20; 20] [-1; 2; 1; 0] = [97; 99; 103; 116].
 Proof. vm_compute. split; reflexivity. Qed.
 
-(** fast mode, everything after the 4-mer vote (the vote is NOT modelled: [shift] and [fc] are whatever it reports,
-    within the bounds a vote can produce): alignment of the predicted overlap +- delta or identical-overlap shortcut,
-    then patching with the unaligned ends.  After the fixes the path consumes both reads and the reported score is
-    the score of the returned path under the scheme of the reported side. *)
-Theorem C08_fast_path_consumes_both : forall sc gap la lb shift fc delta,
+(** fast mode, everything after the 4-mer vote, for EVERY outcome [shift], [fc] a vote could report (within the bounds
+    proved below for the real vote): alignment of the predicted overlap +- delta or identical-overlap shortcut, then
+    patching with the unaligned ends.  After the fixes the path consumes both reads and the reported score is the score
+    of the returned path under the scheme of the reported side. *)
+Theorem C08_fast_after_vote_valid : forall sc gap la lb shift fc delta,
   (1 <= la)%nat -> (1 <= lb)%nat -> 0 <= delta ->
   - Z.of_nat lb < shift < Z.of_nat la ->
   (fc = 0 \/ (fc + 3 <= Z.of_nat la /\ fc + 3 <= Z.of_nat lb)) ->
-  exists isl s p, pealign_fast sc gap la lb shift fc delta = Some (isl, s, p) /\
+  exists isl s p, pealign_fast_with sc gap la lb shift fc delta = Some (isl, s, p) /\
                   consumed p = (la, lb) /\ path_score sc gap la lb isl p = s.
 Proof. exact pealign_fast_valid. Qed.
+
+(** ---- the 4-mer vote (obikmer.Encode4mer, Index4mer, FastShiftFourMer), now INSIDE the model *)
+
+(** the rolling byte code of Encode4mer (<<2, += / |=, truncation to a byte) is at every position the 2-bit code
+    64 c0 + 16 c1 + 4 c2 + c3 of the window of four bases starting there *)
+Theorem C08_encode4mer_windows : forall s, encode4mer s = kmers s /\ length (kmers s) = (length s - 3)%nat.
+Proof. intro s. split; [apply encode4mer_kmers | apply kmers_length]. Qed.
+
+(** the counting loop: the counter of shift d is exactly the number of PAIRS (i, j) — i a 4-mer position of A, j a 4-mer
+    position of B — on diagonal i - j = d that hold the same 4-mer ([diag_pairs]: explicit enumeration of all pairs);
+    [diag_count] is the same number counted along B; every shift is present at most once and only with a count >= 1
+    (a shift without such a pair is absent from the map) *)
+Theorem C08_vote_counts_exact : forall a b,
+  let m := count_votes (encode4mer a) (encode4mer b) in
+  (forall d, vget m d = Z.of_nat (length (diag_pairs (kmers a) (kmers b) d)) /\
+             diag_count (kmers a) (kmers b) d = Z.of_nat (length (diag_pairs (kmers a) (kmers b) d))) /\
+  NoDup (map fst m) /\ Forall (fun p => 1 <= snd p) m /\
+  (forall d c, In (d, c) m <-> (1 <= c /\ c = diag_count (kmers a) (kmers b) d)).
+Proof.
+  intros a b. cbv zeta. split; [intro d; apply votes_exact_pairs|].
+  destruct (votes_exact a b) as [_ H]. exact H.
+Qed.
+
+Example C08_vote_counts_nonvacuous :   (* acgtacgt / gtacgtac: three pairs on diagonal 2, three on -2; the tie goes to -2 *)
+  diag_pairs (kmers [97; 99; 103; 116; 97; 99; 103; 116]) (kmers [103; 116; 97; 99; 103; 116; 97; 99]) 2 = [(2, 0); (3, 1); (4, 2)]%nat /\
+  count_votes (encode4mer [97; 99; 103; 116; 97; 99; 103; 116]) (encode4mer [103; 116; 97; 99; 103; 116; 97; 99]) = [(2, 3); (-2, 3)] /\
+  fast_shift [97; 99; 103; 116; 97; 99; 103; 116] [103; 116; 97; 99; 103; 116; 97; 99] false = (-2, 3, inject_Z 3).
+Proof. vm_compute. repeat split; reflexivity. Qed.
+
+(** a diagonal that holds a vote lies strictly between -(|B|-3) and |A|-3 and its count is at most the number of
+    4-mers of either read that fit on it *)
+Theorem C08_vote_count_bounds : forall ka kb d, 1 <= diag_count ka kb d ->
+  - Z.of_nat (length kb) < d < Z.of_nat (length ka) /\
+  diag_count ka kb d <= Z.of_nat (length ka) /\ diag_count ka kb d <= Z.of_nat (length kb) /\
+  diag_count ka kb d <= Z.of_nat (length ka) - d /\ diag_count ka kb d <= Z.of_nat (length kb) + d.
+Proof. exact diag_count_pos. Qed.
+
+(** ... and stands for an overlap of at least count + 3 bases: the denominator overlap - 3 of the relative score is
+    >= count >= 1 *)
+Theorem C08_vote_overlap_positive : forall a b d, 1 <= diag_count (kmers a) (kmers b) d ->
+  diag_count (kmers a) (kmers b) d <= rel_over (Z.of_nat (length a)) (Z.of_nat (length b)) d - 3.
+Proof. exact vote_over_pos. Qed.
+
+(** what Index4mer + FastShiftFourMer return: (0, 0, -1) when no 4-mer is shared, otherwise the diagonal of highest
+    score (count, or count / (overlap - 3)) — the SMALLER shift on ties — together with its exact count and score *)
+Theorem C08_fast_shift_selects : forall a b rel,
+  ((forall d, diag_count (kmers a) (kmers b) d = 0) /\ fast_shift a b rel = (0, 0, (-1)%Q)) \/
+  (exists s c q, fast_shift a b rel = (s, c, q) /\ 1 <= c /\ c = diag_count (kmers a) (kmers b) s /\
+     (q == vsc rel a b s)%Q /\
+     forall d, 1 <= diag_count (kmers a) (kmers b) d ->
+               (vsc rel a b d < q)%Q \/ ((vsc rel a b d == q)%Q /\ s <= d)).
+Proof. exact fast_shift_spec. Qed.
+
+(** the model visits the map in insertion order, Go in an unspecified order: any other order gives the same answer *)
+Theorem C08_fast_shift_order_independent : forall a b rel l',
+  Permutation.Permutation (entries rel (Z.of_nat (length a)) (Z.of_nat (length b)) (count_votes (encode4mer a) (encode4mer b))) l' ->
+  st_shift (vote_select l') = st_shift (fast_shift a b rel) /\ st_count (vote_select l') = st_count (fast_shift a b rel).
+Proof. exact fast_shift_order_independent. Qed.
+
+(** fast mode of PEAlign, the vote included: for EVERY pair of non-empty reads (bytes), every delta >= 0, both fast scores,
+    the path consumes both reads and the reported score is the score of the returned path *)
+Theorem C08_fast_path_consumes_both : forall sc gap a b rel delta,
+  (1 <= length a)%nat -> (1 <= length b)%nat -> 0 <= delta ->
+  exists isl s p, pealign_fast sc gap a b rel delta = Some (isl, s, p) /\
+                  consumed p = (length a, length b) /\ path_score sc gap (length a) (length b) isl p = s.
+Proof. exact pealign_fast_ok. Qed.
+
+(** the last clause of the property.  Error-free reads cut from the fragment X ++ O ++ Y with an overlap O of at least one
+    4-mer, A = X ++ O and B = O ++ Y (B starts inside A, or at the same position and ends later): whenever the true offset
+    |X| is the STRICT maximiser of the diagonal score among the diagonals holding a vote, fast mode returns a left
+    alignment whose consensus is the fragment (bases outside the overlap: IUPAC letters, qualities >= 0) ... *)
+Theorem C08_fast_reassembly : forall sc gap X O Y qX qOa qOb qY rel delta,
+  (4 <= length O)%nat -> (X <> [] \/ Y <> []) ->
+  length qX = length X -> length qOa = length O -> length qOb = length O -> length qY = length Y ->
+  letters X -> letters Y -> nonneg qX -> nonneg qY -> 0 <= delta ->
+  (forall d, d <> Z.of_nat (length X) -> 1 <= diag_count (kmers (X ++ O)) (kmers (O ++ Y)) d ->
+             (vsc rel (X ++ O) (O ++ Y) d < vsc rel (X ++ O) (O ++ Y) (Z.of_nat (length X)))%Q) ->
+  exists s p, pealign_fast sc gap (X ++ O) (O ++ Y) rel delta = Some (true, s, p) /\
+              consumed p = (length (X ++ O), length (O ++ Y)) /\
+              path_score sc gap (length (X ++ O)) (length (O ++ Y)) true p = s /\
+              consensus (X ++ O) (qX ++ qOa) (O ++ Y) (qOb ++ qY) p = X ++ O ++ Y /\
+              p = [- Z.of_nat (length X); Z.of_nat (length O); Z.of_nat (length Y); 0].
+Proof. exact fast_reassembly_left. Qed.
+
+(** ... and the mirrored geometry B = X ++ O, A = O ++ Y (A starts inside B, or at the same position and ends later or
+    at the same place; X = Y = [] are identical reads): right alignment, same fragment.  The two theorems cover every
+    placement of two reads on a fragment EXCEPT a read that ends strictly inside the other one while starting after
+    it (containment with trailing bases: C08_fast_containment_refuted). *)
+Theorem C08_fast_reassembly_mirror : forall sc gap X O Y qX qOa qOb qY rel delta,
+  (4 <= length O)%nat ->
+  length qX = length X -> length qOa = length O -> length qOb = length O -> length qY = length Y ->
+  letters X -> letters Y -> nonneg qX -> nonneg qY -> 0 <= delta ->
+  (forall d, d <> - Z.of_nat (length X) -> 1 <= diag_count (kmers (O ++ Y)) (kmers (X ++ O)) d ->
+             (vsc rel (O ++ Y) (X ++ O) d < vsc rel (O ++ Y) (X ++ O) (- Z.of_nat (length X)))%Q) ->
+  exists s p, pealign_fast sc gap (O ++ Y) (X ++ O) rel delta = Some (false, s, p) /\
+              consumed p = (length (O ++ Y), length (X ++ O)) /\
+              path_score sc gap (length (O ++ Y)) (length (X ++ O)) false p = s /\
+              consensus (O ++ Y) (qOa ++ qY) (X ++ O) (qX ++ qOb) p = X ++ O ++ Y /\
+              p = [Z.of_nat (length X); Z.of_nat (length O); - Z.of_nat (length Y); 0].
+Proof. exact fast_reassembly_right. Qed.
+
+(** the hypotheses are satisfiable: acgtca / gtcat (X = ac, O = gtca, Y = t): one shared 4-mer, on diagonal 2 *)
+Example C08_fast_reassembly_nonvacuous :
+  (forall d, d <> 2 -> 1 <= diag_count (kmers ex_a) (kmers ex_b) d ->
+             (vsc true ex_a ex_b d <
+              vsc true ex_a ex_b 2)%Q) /\
+  pealign_fast (fun i j => if (i =? j + 2)%nat then 14 else -80) (-161) [97; 99; 103; 116; 99; 97] [103; 116; 99; 97; 116] true 5
+  = Some (true, 56, [-2; 4; 1; 0]).
+Proof. exact fast_reassembly_example. Qed.
+
+(** known finding fast-containment.  B = A[1..7) lies strictly inside A = taaagaca with ONE trailing base of A; error-free,
+    q40 (match 14, mismatch -80, gap -161 as computed by the real code), the true offset 1 is the only diagonal holding
+    votes (3 = every 4-mer of B) — yet fast mode does not take the identical-overlap shortcut (it compares the count with
+    |A| - shift = 7, not with the 6 bases of B that face A), runs the left alignment, in which bases of A after the end of
+    B are not free, and returns [-7 1 5 0]: the consensus is not the fragment. *)
+Theorem C08_fast_containment_refuted :
+  exists a b q sc gap,
+    b = firstn 6 (skipn 1 a) /\ length a = 8%nat /\
+    (exists fs, fast_shift a b false = (1, 3, fs)) /\
+    (forall d, d <> 1 -> diag_count (kmers a) (kmers b) d = 0) /\
+    exists isl s p, pealign_fast sc gap a b false 5 = Some (isl, s, p) /\ consensus a q b q p <> a.
+Proof. exact fast_containment_refuted. Qed.
 
 (** the path surgery alone: unaligned 5' end ++ path of the sub-alignment ++ unaligned 3' end *)
 Theorem C08_fast_patch_consumes : forall e5 e3 p, p <> [] -> Nat.even (length p) = true ->
@@ -164,8 +287,147 @@ Example C08_vote_nonvacuous :
 Proof. exact vote_example. Qed.
 
 Example C08_fast_nonvacuous :   (* 6 x 5 bases, B starts at A[2], one 4-mer... shift 2, count 1, delta 1 *)
-  pealign_fast (fun i j => if (i =? j + 2)%nat then 5 else -4) (-3) 6 5 2 1 1 = Some (true, 20, [-2; 4; 1; 0]).
+  pealign_fast_with (fun i j => if (i =? j + 2)%nat then 5 else -4) (-3) 6 5 2 1 1 = Some (true, 20, [-2; 4; 1; 0]).
 Proof. vm_compute. reflexivity. Qed.
+
+(** ---- the column score (_PairingScorePeAlign): the quality-dependent match / mismatch entries are data, the integer
+    structure is proved; the IUPAC tables are regenerated from the build (Gen/Tables.v) and everything below is re-proved
+    over them on every run *)
+
+(** the match ratio |X n Y| / (|X| |Y|) of two symbols is symmetric, lies in [0, 1], ... *)
+Theorem C08_ratio_symmetric : forall x y, part_match x y = part_match y x.
+Proof. exact part_match_sym. Qed.
+
+Theorem C08_ratio_range : forall x y, (0 <= part_match x y <= 1)%Q.
+Proof. exact part_match_range. Qed.
+
+(** ... is 1 exactly for identical unambiguous bases (a symbol standing for ONE base, against a symbol with the same
+    code: a/a, a/A, t/u; never n/n or r/r), ... *)
+Theorem C08_ratio_one_iff : forall x y,
+  (part_match x y == 1)%Q <-> (set_size (sym_code x) = 1 /\ sym_code x = sym_code y).
+Proof. exact part_match_one_iff. Qed.
+
+(** ... and 0 exactly when the two sets share no base (or a symbol is not a nucleotide code) *)
+Theorem C08_ratio_zero_iff : forall x y,
+  (part_match x y == 0)%Q <->
+  (Z.land (sym_code x) (sym_code y) = 0 \/ set_size (sym_code x) = 0 \/ set_size (sym_code y) = 0).
+Proof. exact part_match_zero_iff. Qed.
+
+(** the switch of the real code, int(_NucPartMatch[i][j] * 100) computed with floats (regenerated table), is the
+    truncation of 100 |X n Y| / (|X| |Y|) for all 32 x 32 symbol indices *)
+Theorem C08_part_match_pct_table : forall i j, (i < 32)%nat -> (j < 32)%nat ->
+  pct_of_model i j = nth j (nth i part_match_pct []) (-1).
+Proof. exact pct_table. Qed.
+
+(** ratio 1: the match entry; ratio 0: the scaled, rounded mismatch entry *)
+Theorem C08_score_cases : forall mt mm scale x y,
+  ((part_match x y == 1)%Q -> pairing_score mt mm scale (part_match x y) = mt) /\
+  ((part_match x y == 0)%Q -> pairing_score mt mm scale (part_match x y) = qtrunc (inject_Z mm * scale + (1 # 2))).
+Proof. exact score_cases. Qed.
+
+(** whatever the ratio, the score lies between the mismatch and the match entries (match entry >= 0, scaled mismatch
+    entry <= match entry) and the mixture grows with the ratio *)
+Theorem C08_score_between : forall mt mm scale pm,
+  0 <= mt -> (0 <= pm <= 1)%Q -> (inject_Z mm * scale <= inject_Z mt)%Q ->
+  qtrunc (inject_Z mm * scale + (1 # 2)) <= pairing_score mt mm scale pm <= mt.
+Proof. exact score_between. Qed.
+
+(** the two score tables themselves (float formulae: data, regenerated): symmetric, and mismatch <= 0 <= match as soon as
+    both qualities are >= 2, so that the bounds above hold for the real tables, every pair of symbols and every scale >= 0 *)
+Theorem C08_score_tables : score_tables_ok = true /\
+  forall qa qb scale x y, 2 <= qa <= 93 -> 2 <= qb <= 93 -> (0 <= scale)%Q ->
+  qtrunc (inject_Z (tabz nuc_mismatch qa qb) * scale + (1 # 2)) <=
+  pairing_score (tabz nuc_match qa qb) (tabz nuc_mismatch qa qb) scale (part_match x y) <= tabz nuc_match qa qb.
+Proof. split; [exact score_tables | exact score_between_real]. Qed.
+
+Theorem C08_score_monotone_in_ratio : forall mt mm scale p1 p2,
+  (p1 <= p2)%Q -> (inject_Z mm * scale <= inject_Z mt)%Q ->
+  qtrunc (mix mt mm scale p1) <= qtrunc (mix mt mm scale p2).
+Proof. exact score_monotone. Qed.
+
+Example C08_score_nonvacuous :   (* a/a, a/c, n/n (1/4), r/a (1/2) at q40 x q40: match entry 14, mismatch entry -81 *)
+  pairing_score 14 (-81) 1 (part_match 97 97) = 14 /\ pairing_score 14 (-81) 1 (part_match 97 99) = -80 /\
+  pairing_score 14 (-81) 1 (part_match 110 110) = -56 /\ pairing_score 14 (-81) 1 (part_match 114 97) = -33 /\
+  (part_match 110 110 == 1 # 4)%Q /\ (part_match 114 98 == 1 # 6)%Q.
+Proof. vm_compute. repeat split; reflexivity. Qed.
+
+(** ---- consensus qualities and annotations of AssemblePESequences (integers and strings) *)
+
+(** qualities and the match count are computed column by column, from that column alone *)
+Theorem C08_quality_columns : forall p a qa b qb,
+  consumed p = (length a, length b) -> length qa = length a -> length qb = length b ->
+  consensus_qual a qa b qb p = map (app4 cons_qual) (cols (expand p) a qa b qb) /\
+  length (consensus_qual a qa b qb p) = length (expand p) /\
+  Forall (fun q => 0 <= q <= 90) (consensus_qual a qa b qb p) /\
+  match_count a qa b qb p = zsum (map (app4 is_match) (cols (expand p) a qa b qb)).
+Proof.
+  intros p a qa b qb Hc Hqa Hqb. split; [now apply columns_map_cols|]. split; [now apply columns_map_length|].
+  split; [now apply consensus_qual_range|]. unfold match_count, zsum. now rewrite columns_map_cols.
+Qed.
+
+(** the two quality tables, regenerated by running the real BuildQualityConsensus on every one-column alignment
+    (qualities 0..93): entries in 0..90, symmetric, agreeing bases min(qa + qb, 90), a quality 0 (a gap) gives the same
+    in both tables, disagreeing bases at least the higher quality (capped at 90) *)
+Theorem C08_quality_tables : quality_tables_ok = true.
+Proof. exact quality_tables. Qed.
+
+(** what AssemblePESequences writes is consistent with the sequence it returns: ali_length, seq_ab_match <= ali_length,
+    score, ali_dir; mode = alignment exactly when ali_length >= minOverlap and seq_ab_match / ali_length >= minIdentity,
+    and then sequence = consensus, one quality (0..90) per base, seq_a_single + seq_b_single + ali_length = length;
+    mode = join: A, ten dots, B with ten zero qualities *)
+Theorem C08_assemble_consistent : forall a qa b qb isl score p minov minid,
+  Nat.even (length p) = true -> (1 <= length a)%nat -> (1 <= length b)%nat ->
+  consumed p = (length a, length b) -> length qa = length a -> length qb = length b ->
+  let r := assemble a qa b qb isl score p minov minid in
+  as_ali r = ali_length p /\ as_match r = match_count a qa b qb p /\ 0 <= as_match r <= as_ali r /\
+  as_score r = score /\ as_dirleft r = isl /\
+  (as_mode r = true ->
+     as_seq r = consensus a qa b qb p /\ as_qual r = consensus_qual a qa b qb p /\
+     length (as_qual r) = length (as_seq r) /\ Forall (fun q => 0 <= q <= 90) (as_qual r) /\
+     as_asingle r = a_single p /\ as_bsingle r = b_single p /\
+     Z.of_nat (length (as_seq r)) = as_asingle r + as_bsingle r + as_ali r /\
+     minov <= as_ali r /\ (minid <= ident_of (as_match r) (as_ali r))%Q) /\
+  (as_mode r = false ->
+     as_seq r = a ++ ten 46 ++ b /\ as_qual r = qa ++ ten 0 ++ qb /\
+     (as_ali r < minov \/ ~ (minid <= ident_of (as_match r) (as_ali r))%Q)).
+Proof. exact assemble_consistent. Qed.
+
+(** the last clause of the property at the level of obipairing.AssemblePESequences (PEAlign fast + consensus +
+    annotations): error-free reads whose true offset is the strict maximiser of the vote, overlap qualities > 0,
+    minOverlap <= |O|, minIdentity <= 1: the record is mode = alignment, sequence = the fragment X ++ O ++ Y,
+    ali_length = seq_ab_match = |O|, seq_a_single = |X|, seq_b_single = |Y|, ali_dir = left, score = the score of PEAlign *)
+Theorem C08_fast_reassembly_record : forall sc gap X O Y qX qOa qOb qY rel delta minov minid,
+  (4 <= length O)%nat -> (X <> [] \/ Y <> []) ->
+  length qX = length X -> length qOa = length O -> length qOb = length O -> length qY = length Y ->
+  letters X -> letters Y -> nonneg qX -> nonneg qY -> positive qOa -> positive qOb -> 0 <= delta ->
+  minov <= Z.of_nat (length O) -> (minid <= 1)%Q ->
+  (forall d, d <> Z.of_nat (length X) -> 1 <= diag_count (kmers (X ++ O)) (kmers (O ++ Y)) d ->
+             (vsc rel (X ++ O) (O ++ Y) d < vsc rel (X ++ O) (O ++ Y) (Z.of_nat (length X)))%Q) ->
+  exists s p, pealign_fast sc gap (X ++ O) (O ++ Y) rel delta = Some (true, s, p) /\
+    assemble (X ++ O) (qX ++ qOa) (O ++ Y) (qOb ++ qY) true s p minov minid =
+    mka true (X ++ O ++ Y) (consensus_qual (X ++ O) (qX ++ qOa) (O ++ Y) (qOb ++ qY) p)
+        (Z.of_nat (length O)) (Z.of_nat (length O)) (Z.of_nat (length X)) (Z.of_nat (length Y)) true s.
+Proof. exact fast_reassembly_record_left. Qed.
+
+(** mirrored geometry (B = X ++ O, A = O ++ Y): ali_dir = right, seq_a_single = |Y|, seq_b_single = |X| *)
+Theorem C08_fast_reassembly_record_mirror : forall sc gap X O Y qX qOa qOb qY rel delta minov minid,
+  (4 <= length O)%nat ->
+  length qX = length X -> length qOa = length O -> length qOb = length O -> length qY = length Y ->
+  letters X -> letters Y -> nonneg qX -> nonneg qY -> positive qOa -> positive qOb -> 0 <= delta ->
+  minov <= Z.of_nat (length O) -> (minid <= 1)%Q ->
+  (forall d, d <> - Z.of_nat (length X) -> 1 <= diag_count (kmers (O ++ Y)) (kmers (X ++ O)) d ->
+             (vsc rel (O ++ Y) (X ++ O) d < vsc rel (O ++ Y) (X ++ O) (- Z.of_nat (length X)))%Q) ->
+  exists s p, pealign_fast sc gap (O ++ Y) (X ++ O) rel delta = Some (false, s, p) /\
+    assemble (O ++ Y) (qOa ++ qY) (X ++ O) (qX ++ qOb) false s p minov minid =
+    mka true (X ++ O ++ Y) (consensus_qual (O ++ Y) (qOa ++ qY) (X ++ O) (qX ++ qOb) p)
+        (Z.of_nat (length O)) (Z.of_nat (length O)) (Z.of_nat (length Y)) (Z.of_nat (length X)) false s.
+Proof. exact fast_reassembly_record_right. Qed.
+
+Example C08_assemble_nonvacuous :   (* acg/[30,10,40] vs cgt/[20,20,20], path [-1 2 1 0], minOverlap 2, minIdentity 9/10 *)
+  assemble [97; 99; 103] [30; 10; 40] [99; 103; 116] [20; 20; 20] true 28 [-1; 2; 1; 0] 2 (9 # 10) =
+  mka true [97; 99; 103; 116] [30; 30; 60; 20] 2 2 1 1 true 28 /\
+  as_mode (assemble [97; 99; 103] [30; 10; 40] [99; 103; 116] [20; 20; 20] true 28 [-1; 2; 1; 0] 3 (9 # 10)) = false.
+Proof. vm_compute. split; reflexivity. Qed.
 
 (** hypotheses are satisfiable and the pipeline computes: 3 x 4 bases, match 5 / mismatch -4, gap -3 *)
 Example C08_exact_nonvacuous :
@@ -183,6 +445,16 @@ Print Assumptions C08_consensus_rule.
 Print Assumptions C08_base_beats_gap.
 Print Assumptions C08_consensus_union_examples.
 Print Assumptions C08_fast_path_consumes_both.
+Print Assumptions C08_fast_after_vote_valid.
+Print Assumptions C08_encode4mer_windows.
+Print Assumptions C08_vote_counts_exact.
+Print Assumptions C08_vote_count_bounds.
+Print Assumptions C08_vote_overlap_positive.
+Print Assumptions C08_fast_shift_selects.
+Print Assumptions C08_fast_shift_order_independent.
+Print Assumptions C08_fast_reassembly.
+Print Assumptions C08_fast_reassembly_mirror.
+Print Assumptions C08_fast_containment_refuted.
 Print Assumptions C08_fast_patch_consumes.
 Print Assumptions C08_fast_path_refuted.
 Print Assumptions C08_reassembly_refuted.
@@ -190,3 +462,17 @@ Print Assumptions C08_reassembly_if_strict_optimum.
 Print Assumptions C08_vote_selects_best_diagonal.
 Print Assumptions C08_vote_order_independent.
 Print Assumptions C08_annotations_consistent.
+Print Assumptions C08_ratio_symmetric.
+Print Assumptions C08_ratio_range.
+Print Assumptions C08_ratio_one_iff.
+Print Assumptions C08_ratio_zero_iff.
+Print Assumptions C08_part_match_pct_table.
+Print Assumptions C08_score_cases.
+Print Assumptions C08_score_between.
+Print Assumptions C08_score_monotone_in_ratio.
+Print Assumptions C08_score_tables.
+Print Assumptions C08_quality_columns.
+Print Assumptions C08_quality_tables.
+Print Assumptions C08_assemble_consistent.
+Print Assumptions C08_fast_reassembly_record.
+Print Assumptions C08_fast_reassembly_record_mirror.
